@@ -14,7 +14,7 @@ LEVEL = "exploration"
 BUDGET = {"quick": {"wall": 100, "task_timeout": 400}, "thorough": {"wall": 1500, "task_timeout": 900}}
 COUNTS = {"quick": 64, "thorough": 1600}
 EVENTS = {"quick": 250, "thorough": 700}
-FAMILIES = ["soft", "lj", "hard_spheres", "hard_disks", "hdd_one", "soft", "hard_disks", "lj"]
+FAMILIES = ["soft", "lj", "hard_spheres", "hard_disks", "hdd_one", "cuboid_cells", "hdd_cells", "cuboid_soft", "hdd"]
 RULE = ("configurations whose out-state computation draws no random numbers (soft spheres, Lennard-Jones atoms, hard "
         "spheres/disks on a lattice, the single hard-disk dipole; 2-10 units, 2-8 cores) are run under the real "
         "MultiProcessMediator on a simulated kernel: every Event/Pipe/Semaphore/wait/start/terminate operation is a "
